@@ -165,7 +165,7 @@ pub fn run_c02(args: &Args) {
         "C02",
         "modelcheck c02",
         args,
-        "random DAGs biased to in-place capable operators, values consumed twice, many consumers, outputs that are also intermediates (and control-flow models when present): each is run under strategies varying owned vs borrowed inputs (all 2^n masks for n<=3, sampled above), RTEN_USE_POOL 0/1, thread pools of 1/2/4/16 threads, weight prepacking, optimisation, extra requested intermediates and output order; every result is compared with an operator-at-a-time evaluation of the un-optimised model in a random topological order (integers exact, floats 1e-4+1e-3 rel) and with the other strategies of the same thread count/prepack/optimise group (bits). non-trivial = the executor's OpRun events show an operator running in place under one strategy and not under another for the same case; distinct by (case, input set)",
+        "random DAGs biased to in-place capable operators, values consumed twice, many consumers, outputs that are also intermediates (and control-flow models when present): each is run under strategies varying owned vs borrowed inputs (all 2^n masks for n<=3, sampled above), RTEN_USE_POOL 0/1, thread pools of 1/2/4/16 threads, weight prepacking, optimisation, extra requested intermediates and output order; every result is compared with an operator-at-a-time evaluation of the un-optimised model in a random topological order (integers exact, floats 1e-4+1e-3 rel) and with the other strategies of the same thread count/prepack/optimise group (values exactly; -0 = +0, NaN = NaN). non-trivial = the executor's OpRun events show an operator running in place under one strategy and not under another for the same case; distinct by (case, input set)",
     );
     install_sink();
     let cases = cases_from(args, "dag,cflow");
@@ -295,10 +295,10 @@ pub fn run_c02(args: &Args) {
                             Some((other_name, other)) => {
                                 for (name, g) in &got_map {
                                     let Some(o) = other.get(name) else { continue };
-                                    if let Some(diff) = compare(g, o, Tol::Bits) {
+                                    if let Some(diff) = compare(g, o, Tol::Exact) {
                                         rep.violation(
                                             format!("{}{}|between_strategies|{}", sig_head, mismatch_kind(&diff), strategy_class(st)),
-                                            format!("value {} differs in bits between strategies [{}] and [{}]: {}", name, st.name(), other_name, diff),
+                                            format!("value {} differs between strategies [{}] and [{}]: {}", name, st.name(), other_name, diff),
                                             json!({"case": small_case_json(c), "input_set": k, "strategy": st.name(), "other": other_name, "value": name}),
                                         );
                                         break;
@@ -597,7 +597,7 @@ pub fn run_c25(args: &Args) {
                     let b = run_simple(&model, &inputs, &c.outputs, None);
                     if let (Ok(a), Ok(b)) = (a, b) {
                         for (x, y) in a.iter().zip(&b) {
-                            if let Some(diff) = compare(x, y, Tol::Bits) {
+                            if let Some(diff) = compare(x, y, Tol::Exact) {
                                 rep.violation(
                                     format!("{}consecutive_runs_differ|{}", sig_head, mismatch_kind(&diff)),
                                     format!("two consecutive identical runs differ for output {}: {}", x.name, diff),
@@ -613,7 +613,7 @@ pub fn run_c25(args: &Args) {
             // Repeat of the first request.
             if let Ok(last) = run_simple(&model, &inputs0, &c.outputs, None) {
                 for (x, y) in first.iter().zip(&last) {
-                    if let Some(diff) = compare(x, y, Tol::Bits) {
+                    if let Some(diff) = compare(x, y, Tol::Exact) {
                         rep.violation(
                             format!("{}history_dependent|{}", sig_head, mismatch_kind(&diff)),
                             format!("repeating the first request after {} other runs gives a different output {}: {}", n_hist, x.name, diff),
@@ -631,7 +631,7 @@ pub fn run_c25(args: &Args) {
                     match run_simple(&model, &[], std::slice::from_ref(name), None) {
                         Ok(got) => {
                             rep.count("constants_read_back");
-                            if let Some(diff) = compare(&got[0], want, Tol::Bits) {
+                            if let Some(diff) = compare(&got[0], want, Tol::Exact) {
                                 rep.violation(
                                     format!("{}constant_changed|{}", sig_head, mismatch_kind(&diff)),
                                     format!("initializer {} read back after the history differs from the model file: {}", name, diff),
